@@ -7,6 +7,25 @@ open Golib.Proto
 
 def badAll (ops : List String) : List String := "bad-op" :: ops.map fun _ => "bad-op"
 
+/-- `count` cases: `addrule p,pe,i,im` may come at any point (before or after the first
+`Generate`); `Generate` is a function of the CURRENT rule slice, the id and the diff only
+(the model has no other state). -/
+def runCountOps : List Rule → Bool → List String → List String
+  | _, _, [] => []
+  | rs, true, _ :: ls => "dead" :: runCountOps rs true ls
+  | rs, false, l :: ls =>
+    match toks l with
+    | ["addrule", r] =>
+      match parseRule r with
+      | none => "bad-op" :: runCountOps rs false ls
+      | some x =>
+        let rs' := addRule rs x
+        ("ok " ++ ";".intercalate (rs'.map showRule)) :: runCountOps rs' false ls
+    | ts =>
+      match countStep rs ts with
+      | none => "panic" :: runCountOps rs true ls
+      | some o => o :: runCountOps rs false ls
+
 /-- Entry point of the C20 section of the oracle: header tokens after `@ C20`. -/
 def runCase (hdr : List String) (ops : List String) : List String :=
   match hdr with
@@ -25,7 +44,7 @@ def runCase (hdr : List String) (ops : List String) : List String :=
     | none => badAll ops
     | some rs =>
       let sorted := rs.foldl addRule []
-      ("ok " ++ ";".intercalate (sorted.map showRule)) :: runOpsWith (countStep sorted) false ops
+      ("ok " ++ ";".intercalate (sorted.map showRule)) :: runCountOps sorted false ops
   | "countraw" :: rules =>
     -- the rule slice exactly as given (the harness installs this order through reflection):
     -- any order `sort.Slice` may leave among rules of equal period, and unsorted lists
